@@ -231,7 +231,9 @@ impl Outline {
                 let ix = ix as u16 + first_ix;
                 point.prev_ix = prev_ix;
                 prev_ix = ix;
-                point.next_ix = ix + 1;
+                // The last point of a contour (overwritten below) may have
+                // index u16::MAX.
+                point.next_ix = ix.wrapping_add(1);
             }
             points.last_mut().unwrap().next_ix = first_ix;
         }
@@ -547,6 +549,25 @@ mod tests {
     use super::*;
     use crate::{prelude::Size, MetadataProvider};
     use raw::{types::GlyphId, FontRef, TableProvider};
+
+    /// A contour whose last point has index u16::MAX (an outline with exactly
+    /// 65536 points) must link without overflowing.
+    #[test]
+    fn link_points_with_max_point_index() {
+        let mut outline = Outline::default();
+        for _ in 0..=u16::MAX as usize {
+            outline.points.push(Point::default());
+        }
+        outline.contours.push(Contour {
+            first_ix: 0,
+            last_ix: u16::MAX,
+        });
+        outline.link_points();
+        assert_eq!(outline.points[0].next_ix, 1);
+        assert_eq!(outline.points[0].prev_ix, u16::MAX);
+        assert_eq!(outline.points[u16::MAX as usize].next_ix, 0);
+        assert_eq!(outline.points[u16::MAX as usize].prev_ix, u16::MAX - 1);
+    }
 
     #[test]
     fn direction_from_vectors() {
